@@ -17,6 +17,7 @@ impl<T: Send + 'static> Future for Guard<T> {
                 std::task::Poll::Ready(value) => {
                     // Mark the future as completed.
                     self.future = None;
+                    crate::verif_point!("guard.exit", None, 0);
 
                     std::task::Poll::Ready(value)
                 }
@@ -33,6 +34,9 @@ impl<T: Send + 'static> Drop for Guard<T> {
         // If the future is still present, spawn it to ensure it completes.
 
         if let Some(future) = self.future.take() {
+            crate::verif_point!("guard.detach", None, 0);
+            #[cfg(qbice_verif)]
+            let future = async move { let r = future.await; crate::verif::emit("guard.exit", None, 1); r };
             tokio::spawn(future);
         }
     }
@@ -58,6 +62,7 @@ where
     F::Output: Send + 'static,
 {
     fn guarded(self) -> Guard<F::Output> {
+        crate::verif_point!("guard.enter", None, 0);
         Guard { future: Some(Box::pin(self)) }
     }
 }
